@@ -296,7 +296,7 @@ func VerifC08WinFirstLastFrames() {
 func VerifC08WinVarStdFrames() {
 	const tag = "c08.wvar"
 	kind := nd.Pick(tag+".kind", 4)
-	p := c08wSetup(tag, c08wCellsPicked, nd.Bound(3, 5))
+	p := c08wSetup(tag, c08wCellsPicked, nd.Bound(3, 4))
 	var fn sql.WindowFunction
 	switch kind {
 	case 0:
